@@ -283,3 +283,10 @@ pub fn draw_opt_alias(g: &mut Gen) -> OptU8 { if g.chance(100) { None } else { S
 
 /// `Box<Option<T>>`: presence of the inner value is drawn from the tape (it is not an optional *field*).
 pub fn draw_box_opt<'a, T: Draw<'a>>(g: &mut Gen, ar: &'a Arena) -> Box<Option<T>> { Box::new(if g.chance(110) { None } else { Some(T::draw(g, ar, &mut Presence::random())) }) }
+
+/// Codec functions that forward to the type's own impls (`decode_with` / `encode_with` attributes on ordinary fields).
+pub mod fwd {
+    use minicbor::{decode as dec, encode as enc, Decoder, Encoder};
+    pub fn decode<'b, C, T: minicbor::Decode<'b, C>>(d: &mut Decoder<'b>, ctx: &mut C) -> Result<T, dec::Error> { T::decode(d, ctx) }
+    pub fn encode<C, T: minicbor::Encode<C>, W: enc::Write>(v: &T, e: &mut Encoder<W>, ctx: &mut C) -> Result<(), enc::Error<W::Error>> { v.encode(e, ctx) }
+}
